@@ -130,12 +130,39 @@ def judge(ctx, traces, bad):
     ctx.trace_done(len(traces))
 
 
+def negative_control(ctx, traces, bad):
+    """liveness of the binding: ONE logged value of one conforming recorded call is corrupted (the water level
+    mu -> mu + 1/den(mu): same denominator, so the verdict has to come from the KKT clause that binds the
+    value) and validated by the same Trace_WaterFilling.tla in a separate single-trace TLC run.  TLC must
+    reject it; the probe is not a verdict about the tree under test."""
+    idx = next((i for i, t in enumerate(traces, 1) if i not in bad and t["outcome"] == "ok"), None)
+    if idx is None:            # nothing conforming recorded (grossly broken tree): the violations speak already
+        ctx.notes["trace_negative_control"] = "skipped: no conforming recorded call"
+        return
+    t = json.loads(json.dumps({k: v for k, v in traces[idx - 1].items() if k not in ("raw", "as", "how")}))
+    t["mu"] = [t["mu"][0] + 1, t["mu"][1]]
+    os.makedirs(tlc.WORK, exist_ok=True)
+    path = os.path.join(tlc.WORK, f"c12-probe-{uuid.uuid4().hex[:8]}.json")
+    with open(path, "w") as f:
+        json.dump([t], f)
+    try:
+        r = tlc.run(MODULE, tlc.cfg_text(invariants=["Conforms"]), workers=1, env=dict(JVM_ENV, TRACE_FILE=path), heap="1g")
+    finally:
+        os.unlink(path)
+    if r.violated != "Conforms":
+        raise tlc.TlcError("trace validation did not report a corrupted water level (binding not live)")
+    ctx.account(r, MODULE, "negative control: recorded call with corrupted water level", expect_violation="Conforms")
+    ctx.notes["trace_negative_control"] = (f"water level of recorded call {idx} changed from {traces[idx - 1]['mu']} "
+                                           f"to {t['mu']}: rejected")
+
+
 def run(ctx):
     rng = np.random.RandomState(1000003 * ctx.seed + 12)
     count = 20000 if ctx.tier == "thorough" else 1500
     traces = [record(i) for i in gen_inputs(rng, count)]
     bad = validate(ctx, traces, f"{count} recorded calls, random rationals a/b (a,b in 1..6), length 1-4")
     judge(ctx, traces, bad)
+    negative_control(ctx, traces, bad)
     ctx.notes["recorded_calls_validated"] = count
     ctx.assumptions.append("stage T: float results converted by Fraction.limit_denominator(1e6), round trip <= 1e-12; "
                            "true denominators divide U <= 129600, so the conversion is unique")
